@@ -2258,7 +2258,10 @@ class BaseInterpreter(Generic[TContext, TEvent]):
                     data=self._resolve_output(final_state),
                     src=ancestor.id,
                 )
-                await self.send(done_event)
+                # 🔁 Deliver through `_deliver` so the event counts towards
+                #    the raise-chain breaker: an `onDone` that re-completes
+                #    its own state is a self-feeding chain like any `raise`.
+                await self._deliver(self, done_event, None, None)
                 # Per SCXML, only fire for the first completed ancestor.
                 return
             ancestor = ancestor.parent
